@@ -128,6 +128,7 @@ func lemmaCmpTrans(a, b, c Object) (ab, bc, ac int, eab, ebc, eac bool) {
 //@   pure
 //@   trustframe
 //@   maypanic *
+//@   ensures  @C12 range:: -1 <= result && result <= 1
 //@   property C12
 //@ func Equals
 //@   opaque
